@@ -135,3 +135,6 @@ def t_sets():
         g_lex('nlterm', [RE('[a\\x0a]+', 'anl'), CH('b')], 'a term whose lexeme may contain newlines'),
         g_lex('hi', [RE('[\\x80-\\xff]+', 'hi'), CH('a'), RE('\\x00', 'nul')], 'bytes >= 0x80 and NUL as term characters'),
     ]
+
+# units on which a recorded, unrepaired defect of /repo manifests (known_findings.json: D5, fixed-size stack capacity): they are run only by the checks that own the finding (C06, C12)
+KNOWN_DEFECT_UNITS = {'nrun4'}
